@@ -555,7 +555,7 @@ def run(ctx):
             if recomputed and any(f["key"] == "exponential-audit-shared-ids" for f in findings):
                 slow_instances.append(dict(base=meta[i]["base"], mutations=meta[i]["mutations"], states=n_states, visits_when_stopped=visits))
                 continue
-            ofails.append((f"hang: no answer within {limit:.0f} s on a mutant of {meta[i]['base']} ({meta[i]['mutations']})", rep))
+            ofails.append((f"hang: no answer within {limit:.0f} s of CPU time on a mutant of {meta[i]['base']} ({meta[i]['mutations']})", rep))
             continue
         if x["status"] == "crash":
             ofails.append((f"interpreter-crash: worker died (exit {x.get('exit')}, signal {x.get('signal')}) on a mutant of {meta[i]['base']} "
